@@ -171,6 +171,8 @@ func runC06(w *core.World, r *core.Report) {
 	r.Rule("R4", "FLAG_TERMINATE test separates entry and every handler call from every handler call in Vm.Run; engine.exec stops before setCode when TERMINATE is set")
 	r.Rule("R5", "who may clear FLAG_TERMINATE with a constant reset: the no-op behind Run's test and the engine's session restart")
 	r.Rule("R6", "CATCH moves / CROAK purges exactly on the true edge of MatchFlag(decoded sig, decoded mode); MatchFlag is GetFlag(sig)==mode")
+	r.Rule("R11", "flags requested by external code: the reset list is applied before the set list")
+	r.Rule("R12", "the pending code is consumed when the engine fetches it: State.Code is stored again on every path after State.GetCode")
 	r.Rule("R10", "Finish saves only an initialised engine (C17 R5): the pre-VM hook's deferred TERMINATE reset on a blocked session is never stored")
 	r.Rule("R9", "flag addressing loses no bits: no lossy narrowing in package state, and the integer decoder that yields CATCH/CROAK signals decodes every accepted operand length from the operand bytes")
 	r.Rule("R8", "the reserved flag byte is re-initialised (State.Restart) only by the engine's session restart")
@@ -413,6 +415,8 @@ func runC06(w *core.World, r *core.Report) {
 	checkFlagAddressing(w, r, "R9")
 	checkIntDecoderTotal(w, r, "R9")
 	checkFinishSavesOnlyInitialised(w, r, "R10")
+	checkResultFlagOrder(w, r, "R11")
+	checkPendingCodeConsumed(w, r, "R12")
 
 	// ---- R6 ----------------------------------------------------------------------------------
 	if mf := anchor(w, r, "state", "(*State).MatchFlag"); mf != nil {
